@@ -167,17 +167,18 @@ Definition consume_resp (sdev : kid) (h : hs) (m : resp_msg) : option hs :=
   end.
 
 (* ---- BeginSymmetricSession --------------------------------------------- *)
-Record keypair := { kp_send : term; kp_recv : term; kp_init : bool; kp_lidx : N; kp_ridx : N }.
+Record keypair := { kp_send : term; kp_recv : term; kp_init : bool; kp_lidx : N; kp_ridx : N;
+                    kp_dead : bool }.   (* sendNonce forced to RejectAfterMessages: nothing more is sent under it *)
 Record slots := { previous : option keypair; current : option keypair; next : option keypair }.
 Definition no_slots : slots := {| previous := None; current := None; next := None |}.
 
 Definition derive_keypair (h : hs) : option keypair :=
   if st h =? handshakeResponseConsumed then
     let '(s, r) := kdf2 (ck h) TEmpty in                     (* KDF2(&sendKey, &recvKey, chainKey, nil) *)
-    Some {| kp_send := s; kp_recv := r; kp_init := true; kp_lidx := lidx h; kp_ridx := ridx h |}
+    Some {| kp_send := s; kp_recv := r; kp_init := true; kp_lidx := lidx h; kp_ridx := ridx h; kp_dead := false |}
   else if st h =? handshakeResponseCreated then
     let '(r, s) := kdf2 (ck h) TEmpty in                     (* KDF2(&recvKey, &sendKey, chainKey, nil) *)
-    Some {| kp_send := s; kp_recv := r; kp_init := false; kp_lidx := lidx h; kp_ridx := ridx h |}
+    Some {| kp_send := s; kp_recv := r; kp_init := false; kp_lidx := lidx h; kp_ridx := ridx h; kp_dead := false |}
   else None.
 
 Definition zero_handshake (h : hs) : hs :=
@@ -242,7 +243,8 @@ Definition check_mac1 (sdev : kid) (body m1 : term) : bool := mac_ok (mac1_key (
 Record peer := { p_id : kid; p_hs : hs; p_kp : slots; p_staged : N;
                  p_cookie : option term;      (* cookieGenerator.mac2.cookie while cookieSet is fresh *)
                  p_lastmac1 : option term }.  (* cookieGenerator.mac2.lastMAC1 / hasLastMAC1 *)
-Record dev := { d_static : kid; d_peers : list peer }.
+Record dev := { d_static : kid; d_peers : list peer;
+                d_olds : list kid }.   (* static keys the device had before (ghost: history of SetPrivateKey) *)
 
 Definition new_peer (id : kid) (h : hs) : peer :=
   {| p_id := id; p_hs := h; p_kp := no_slots; p_staged := 0; p_cookie := None; p_lastmac1 := None |}.
@@ -260,7 +262,8 @@ Definition hs_list (d : dev) : list (kid * hs) := map (fun p => (p_id p, p_hs p)
 
 Definition upd_peer (d : dev) (q : peer) : dev :=
   {| d_static := d_static d;
-     d_peers := map (fun p => if Nat.eqb (p_id p) (p_id q) then q else p) (d_peers d) |}.
+     d_peers := map (fun p => if Nat.eqb (p_id p) (p_id q) then q else p) (d_peers d);
+     d_olds := d_olds d |}.
 
 Fixpoint get_peer (ps : list peer) (k : kid) : option peer :=
   match ps with
@@ -283,7 +286,8 @@ Inductive ev :=
 | ETun (to : kid) (e : kid) (ts idx : N)           (* TUN packet routed to peer [to]; oracles if it initiates *)
 | EKick (to : kid) (e : kid) (ts idx : N)          (* SendHandshakeInitiation(false) (hook) *)
 | ERestart                                         (* Device.Down(); Device.Up(): every peer Stop()ped and Start()ed *)
-| ECookie (receiver : N) (nonce : N) (c : term).   (* datagram: cookie reply, c = the sealed cookie field *)
+| ECookie (receiver : N) (nonce : N) (c : term)    (* datagram: cookie reply, c = the sealed cookie field *)
+| ESetPrivateKey (new : kid).                      (* UAPI private_key=: Device.SetPrivateKey *)
 
 (* Handshake.Clear(): the per-handshake secrets and the local index go; the
    CONFIGURATION of the peer (presharedKey, remoteStatic, precomputedStaticStatic)
@@ -295,6 +299,22 @@ Definition clear_handshake (h : hs) : hs :=
 (* Peer.Stop() -> ZeroAndFlushAll(): keypairs deleted, handshake cleared, staged packets flushed;
    the cookie generator is not touched. *)
 Definition restart_peer (p : peer) : peer := upd p (clear_handshake (p_hs p)) no_slots 0.
+
+(* SetPrivateKey: for every peer  precomputedStaticStatic = sharedSecret(NEW private key, remoteStatic)
+   and ExpireCurrentKeypairs(): handshake index deleted, Handshake.Clear(), the send counters of
+   [current] and [next] forced to RejectAfterMessages (they still receive). *)
+Definition expire_kp (o : option keypair) : option keypair :=
+  match o with
+  | Some k => Some {| kp_send := kp_send k; kp_recv := kp_recv k; kp_init := kp_init k; kp_lidx := kp_lidx k;
+                      kp_ridx := kp_ridx k; kp_dead := true |}
+  | None => None
+  end.
+Definition rekey_peer (new : kid) (p : peer) : peer :=
+  let h := clear_handshake (p_hs p) in
+  upd p {| st := st h; hash := hash h; ck := ck h; psk := psk h; leph := leph h; lidx := lidx h; ridx := ridx h;
+           rstatic := rstatic h; reph := reph h; ss := dhn new (rstatic h); lastTs := lastTs h |}
+      {| previous := previous (p_kp p); current := expire_kp (current (p_kp p)); next := expire_kp (next (p_kp p)) |}
+      (p_staged p).
 
 (* SendHandshakeInitiation *)
 Definition send_initiation (d : dev) (p : peer) (e : kid) (ts idx : N) : dev * list out :=
@@ -395,6 +415,9 @@ Definition dev_step (d : dev) (e : ev) : dev * list out :=
         | None => (d, [])
         | Some plain =>
           let '(s', promoted) := received_with (kp_lidx k) (p_kp p) in
+          (* SendStagedPackets after the promotion; under an expired keypair it would start a handshake
+             instead -- the harness never sends data under keys older than the last key change *)
+          let promoted := promoted && negb (kp_dead k) in
           let outs1 := if promoted then flush (p_id p) k (p_staged p) false else [] in
           let staged' := if promoted then 0 else p_staged p in
           (upd_peer d (upd p (p_hs p) s' staged'),
@@ -405,8 +428,13 @@ Definition dev_step (d : dev) (e : ev) : dev * list out :=
       match get_peer (d_peers d) to with
       | None => (d, [])
       | Some p =>
+        (* SendStagedPackets: keypair == nil || sendNonce >= RejectAfterMessages => SendHandshakeInitiation *)
         match current (p_kp p) with
-        | Some k => (upd_peer d (upd p (p_hs p) (p_kp p) 0), flush to k (p_staged p + 1) false)
+        | Some k =>
+          if kp_dead k then
+            let p' := upd p (p_hs p) (p_kp p) (p_staged p + 1) in
+            send_initiation (upd_peer d p') p' e ts idx
+          else (upd_peer d (upd p (p_hs p) (p_kp p) 0), flush to k (p_staged p + 1) false)
         | None =>
           let p' := upd p (p_hs p) (p_kp p) (p_staged p + 1) in
           send_initiation (upd_peer d p') p' e ts idx
@@ -418,7 +446,7 @@ Definition dev_step (d : dev) (e : ev) : dev * list out :=
       | Some p => send_initiation d p e ts idx
       end
   | ERestart =>
-      ({| d_static := d_static d; d_peers := map restart_peer (d_peers d) |}, [])
+      ({| d_static := d_static d; d_peers := map restart_peer (d_peers d); d_olds := d_olds d |}, [])
   | ECookie receiver nonce c =>
       (* RoutineHandshake, MessageCookieReplyType: index lookup, CookieGenerator.ConsumeReply *)
       match find_any_index (d_peers d) receiver with
@@ -433,4 +461,9 @@ Definition dev_step (d : dev) (e : ev) : dev * list out :=
           end
         end
       end
+  | ESetPrivateKey new =>
+      (* sk.Equals(current) => nothing.  A key whose public half is a configured peer's key would remove
+         that peer; the real device deadlocks there (design finding F3c), so this is modelled as not happening. *)
+      if Nat.eqb new (d_static d) || existsb (fun p => Nat.eqb (p_id p) new) (d_peers d) then (d, [])
+      else ({| d_static := new; d_peers := map (rekey_peer new) (d_peers d); d_olds := d_static d :: d_olds d |}, [])
   end.
